@@ -43,6 +43,17 @@ Proof.
   apply orb_prop in H1. destruct H1 as [H1|H1]; [left; apply N.ltb_lt, H1 | right; apply N.leb_le, H1].
 Qed.
 
+(* the rows S .. S+H-1 are zero on the columns j < n *)
+Definition zerob (A : list (list N)) (S H n : N) : bool :=
+  forallb (fun k => forallb (fun j => cell A k j =? 0) (seqN 0 n)) (seqN S (S + H)).
+
+Lemma zerob_ok A S H n : zerob A S H n = true ->
+  forall k j, S <= k < S + H -> j < n -> cell A k j = 0.
+Proof.
+  unfold zerob. intros Hz k j Hk Hj. rewrite forallb_forall in Hz. specialize (Hz k ltac:(apply seqN_in; lia)).
+  rewrite forallb_forall in Hz. apply N.eqb_eq. apply Hz. apply seqN_in. lia.
+Qed.
+
 Lemma unpanic_some {A} (x : outcome (option A)) a : unpanic x = Some a -> x = Ok (Some a).
 Proof. destruct x as [[b|]|c]; cbn; intros H; inversion H; reflexivity. Qed.
 
